@@ -197,8 +197,244 @@ fn mult_of(v: &Value) -> f64 {
     }
 }
 
+
+// ---------------------------------------------------------------------------------------------
+// Real-time observation of the waits between attempts ("waits" / "bwaits" cases).
+// The closure records when each call starts and ends; gap j = start of call j+1 - end of call j
+// is what the helper slept between the two attempts.  Call i sleeps `busy[i]` ms inside the
+// operation (0 beyond the end of the list) and always lets the clock advance by at least a tick.
+// Every trial must give the same result; the gaps reported are the per-gap minima over the trials
+// (scheduler noise only ever adds time).  Trials stop (at least 2, at most 25) once every minimum
+// is less than half a millisecond above a whole number of milliseconds - a rule that knows nothing
+// about the expected values.
+struct Probe<'a> {
+    script: &'a [i64],
+    busy: &'a [u64],
+    starts: Vec<Instant>,
+    ends: Vec<Instant>,
+    items: Vec<i64>,
+}
+impl Probe<'_> {
+    fn call(&mut self, item: i64) -> CloudResult<i64> {
+        let i = self.starts.len();
+        self.starts.push(Instant::now());
+        self.items.push(item);
+        spin();
+        let b = self.busy.get(i).copied().unwrap_or(0);
+        if b > 0 {
+            std::thread::sleep(Duration::from_millis(b));
+        }
+        let r = op_result(sym_at(self.script, i), i);
+        self.ends.push(Instant::now());
+        r
+    }
+    fn gaps(&self) -> Vec<u64> {
+        (1..self.starts.len())
+            .map(|j| self.starts[j].duration_since(self.ends[j - 1]).as_micros() as u64)
+            .collect()
+    }
+}
+
+#[derive(Clone, Copy)]
+struct Cfg {
+    initial: u64,
+    cap: u64,
+    mult: f64,
+    budget: u32,
+}
+impl Cfg {
+    fn real(self) -> RetryConfig {
+        RetryConfig {
+            max_attempts: self.budget,
+            initial_delay_ms: self.initial,
+            max_delay_ms: self.cap,
+            backoff_multiplier: self.mult,
+        }
+    }
+}
+/// [initial | null, cap | null, mult | null, budget | null]; null = the field of RetryConfig::default()
+fn cfg_of(v: &Value) -> Cfg {
+    let d = RetryConfig::default();
+    Cfg {
+        initial: v[0].as_u64().unwrap_or(d.initial_delay_ms),
+        cap: v[1].as_u64().unwrap_or(d.max_delay_ms),
+        mult: if v[2].is_null() { d.backoff_multiplier } else { mult_of(&v[2]) },
+        budget: v[3].as_u64().map_or(d.max_attempts, |b| b as u32),
+    }
+}
+
+type Trial = (Vec<i64>, u64, Vec<u64>);
+
+fn code_of_result(calls: usize, r: CloudResult<i64>) -> Vec<i64> {
+    match r {
+        Ok(v) => vec![calls as i64, 0, v + 1],
+        Err(e) => vec![calls as i64, code_of(&e.kind), origin_of(&e) + 1],
+    }
+}
+
+/// one trial of fixed wrapper `w` (numbering as in `run_wrapper`, plus 14 = utils::with_timeout)
+fn wait_trial(w: i64, cfg: Cfg, timeout: Duration, script: &[i64], busy: &[u64]) -> Trial {
+    let c = cfg.real();
+    let mut p = Probe { script, busy, starts: vec![], ends: vec![], items: vec![] };
+    let t0 = Instant::now();
+    if w == 9 {
+        let items = [1i64, 2, 3];
+        let r = run_cloud_io_batch(&c, &items, |item: &i64| p.call(*item));
+        let total = t0.elapsed().as_micros() as u64;
+        let mut code = vec![p.items.len() as i64, 0];
+        code.extend_from_slice(&p.items);
+        match r {
+            Ok(vs) => code.extend(vs.iter().map(|v| v + 1)),
+            Err(e) => {
+                code[1] = code_of(&e.kind);
+                code.push(origin_of(&e) + 1);
+            }
+        }
+        return (code, total, p.gaps());
+    }
+    let r: CloudResult<i64> = {
+        let mut op = || p.call(0);
+        match w {
+            0 => retry_with_backoff(&c, &mut op),
+            1 => run_with_retry(&c, &mut op),
+            2 => run_cloud_io_with_retry(&c, &mut op),
+            3 => OperationBuilder::new().with_retry(c).execute(&mut op),
+            4 => OperationBuilder::new().with_retry(c).with_timeout(timeout).execute(&mut op),
+            5 => CloudIOExecutor::new().with_retry(c).execute(&mut op),
+            6 => CloudIOExecutor::new().with_timeout(timeout).with_retry(c).execute(&mut op),
+            7 => run_with_timeout_and_retry(&c, timeout, &mut op),
+            8 => run_cloud_io_with_retry_and_timeout(&c, timeout, &mut op),
+            10 => OperationBuilder::new().execute(&mut op),
+            11 => OperationBuilder::new().with_timeout(timeout).execute(&mut op),
+            12 => CloudIOExecutor::default().execute(&mut op),
+            13 => CloudIOExecutor::new().with_timeout(timeout).execute(&mut op),
+            14 => with_timeout(timeout, &mut op),
+            _ => panic!("bad wrapper {w}"),
+        }
+    };
+    let total = t0.elapsed().as_micros() as u64;
+    (code_of_result(p.starts.len(), r), total, p.gaps())
+}
+
+/// a setter is [0, initial, cap, mult, budget] = .with_retry(..) or [1, timeout_ms] = .with_timeout(..)
+fn builder_trial(which: i64, ctor: i64, setters: &[Value], script: &[i64], busy: &[u64]) -> Trial {
+    let mut p = Probe { script, busy, starts: vec![], ends: vec![], items: vec![] };
+    let rc = |st: &Value| cfg_of(&json!([st[1], st[2], st[3], st[4]])).real();
+    let to = |st: &Value| Duration::from_millis(st[1].as_u64().unwrap());
+    let t0 = Instant::now();
+    let r: CloudResult<i64> = {
+        let op = || p.call(0);
+        if which == 0 {
+            let mut b = if ctor == 0 { OperationBuilder::new() } else { OperationBuilder::default() };
+            for st in setters {
+                b = if st[0].as_i64().unwrap() == 0 { b.with_retry(rc(st)) } else { b.with_timeout(to(st)) };
+            }
+            b.execute(op)
+        } else {
+            let mut b = if ctor == 0 { CloudIOExecutor::new() } else { CloudIOExecutor::default() };
+            for st in setters {
+                b = if st[0].as_i64().unwrap() == 0 { b.with_retry(rc(st)) } else { b.with_timeout(to(st)) };
+            }
+            b.execute(op)
+        }
+    };
+    let total = t0.elapsed().as_micros() as u64;
+    (code_of_result(p.starts.len(), r), total, p.gaps())
+}
+
+/// repeat a trial as described above; a result that changes between trials is reported as code [-7]
+fn observe_waits(one: &dyn Fn() -> Trial) -> Value {
+    let (code, mut total, mut gaps) = one();
+    for t in 1..25 {
+        if t >= 2 && gaps.iter().all(|g| g % 1000 < 500) {
+            break;
+        }
+        let (c2, t2, g2) = one();
+        if c2 != code || g2.len() != gaps.len() {
+            return json!([[-7], 0, []]);
+        }
+        total = total.min(t2);
+        for (g, h) in gaps.iter_mut().zip(g2) {
+            *g = (*g).min(h);
+        }
+    }
+    json!([code, total, gaps])
+}
+
+const WAIT_WRAPPERS: [i64; 15] = [0, 1, 2, 3, 4, 5, 6, 7, 8, 9, 10, 11, 12, 13, 14];
+
+/// generator-side estimate used ONLY to pick timeouts away from the clock's grey zone (Corr/C18.v
+/// decides on its own, from the model, whether a timeout is usable and rejects the case as
+/// malformed otherwise): attempts of the first retry run and the ms it must at least take
+fn plan(cfg: Cfg, script: &[i64], busy: &[u64], retry: bool) -> (u64, u64) {
+    let budget = if retry { u64::from(cfg.budget.max(1)) } else { 1 };
+    let mut a = 1u64;
+    while a < budget && (1..=4).contains(&sym_at(script, (a - 1) as usize)) {
+        a += 1;
+    }
+    let mut lo = 0u64;
+    let mut d = cfg.initial;
+    for _ in 1..a {
+        lo += d;
+        d = (if cfg.mult >= 2.0 { d.saturating_mul(2) } else { d }).min(cfg.cap);
+    }
+    for i in 0..a {
+        lo += busy.get(i as usize).copied().unwrap_or(0);
+    }
+    (a, lo)
+}
+const GREY_MS: u64 = 300;
+fn usable_timeout(t: u64, lo: u64) -> bool {
+    t <= lo || t >= lo + GREY_MS
+}
+
 fn run(kind: &str, input: &Value) -> Value {
     match kind {
+        // in = [cfg, [timeout_ms of the retrying wrappers, timeout_ms of the single-call ones],
+        // script, busy, slack_us]: every fixed wrapper at once (one thread each; they mostly
+        // sleep).  out = [[w, code, total_us, gaps_us] per wrapper]
+        "waits" => {
+            let cfg = cfg_of(&input[0]);
+            let t_retry = Duration::from_millis(input[1][0].as_u64().unwrap());
+            let t_single = Duration::from_millis(input[1][1].as_u64().unwrap());
+            let script = ints(&input[2]);
+            let busy: Vec<u64> = ints(&input[3]).iter().map(|x| *x as u64).collect();
+            let outs: Vec<Value> = std::thread::scope(|sc| {
+                let hs: Vec<_> = WAIT_WRAPPERS
+                    .iter()
+                    .map(|&w| {
+                        let (script, busy) = (&script, &busy);
+                        let timeout = if w >= 10 { t_single } else { t_retry };
+                        sc.spawn(move || {
+                            let o = observe_waits(&|| wait_trial(w, cfg, timeout, script, busy));
+                            json!([w, o[0], o[1], o[2]])
+                        })
+                    })
+                    .collect();
+                hs.into_iter().map(|h| h.join().expect("wrapper thread")).collect()
+            });
+            Value::Array(outs)
+        }
+        // in = [setters, script, busy, slack_us]: OperationBuilder and CloudIOExecutor, from new()
+        // and default(), built by the same setter sequence.  out = [[code, total_us, gaps_us] x 4]
+        "bwaits" => {
+            let setters = input[0].as_array().unwrap().clone();
+            let script = ints(&input[1]);
+            let busy: Vec<u64> = ints(&input[2]).iter().map(|x| *x as u64).collect();
+            let outs: Vec<Value> = std::thread::scope(|sc| {
+                let hs: Vec<_> = [(0i64, 0i64), (0, 1), (1, 0), (1, 1)]
+                    .iter()
+                    .map(|&(which, ctor)| {
+                        let (setters, script, busy) = (&setters, &script, &busy);
+                        sc.spawn(move || {
+                            observe_waits(&|| builder_trial(which, ctor, setters, script, busy))
+                        })
+                    })
+                    .collect();
+                hs.into_iter().map(|h| h.join().expect("builder thread")).collect()
+            });
+            Value::Array(outs)
+        }
         // in = [w, budget, prefix, extra, overrun]
         "rrow" | "rbucket" => {
             let w = input[0].as_i64().unwrap();
@@ -816,6 +1052,181 @@ fn generate(seed: u64, tier: Tier, em: &mut Emitter) {
     ];
     for t in timing {
         em.case("timing", t, true, &["timing"]);
+    }
+
+    // 9. the waits themselves, in real time, through EVERY wrapper: each row runs wrappers 0..14
+    //    on one (configuration, timeout, script, time inside the calls); the gaps between the
+    //    attempts must be the model's sleep sequence and a timeout must be charged for them.
+    //    Delays are a few ms (tens at most); differences that matter are >= 2 x slack.
+    {
+        let fj = |m: f64| -> Value {
+            if m.is_nan() {
+                f("nan")
+            } else if m.is_infinite() {
+                f("infinity")
+            } else if m == 2.0 {
+                f("0x1p+1")
+            } else if m == 1.5 {
+                f("0x1.8p+0")
+            } else if m == 3.0 {
+                f("0x1.8p+1")
+            } else if m == 1.0 {
+                f("0x1p+0")
+            } else if m == 0.0 {
+                f("0x0p+0")
+            } else {
+                f("0x1.fffffffffffffp+0")
+            }
+        };
+        let cj = |c: Cfg| json!([c.initial, c.cap, fj(c.mult), c.budget]);
+        let slack = 8000;
+        let big = 1u64 << 61;
+        let cfgs: Vec<Cfg> = vec![
+            Cfg { initial: 30, cap: 2, mult: 2.0, budget: 4 },    // initial above the cap: 30,2,2
+            Cfg { initial: 25, cap: 3, mult: 1.5, budget: 3 },    // the same without growth: 25,3
+            Cfg { initial: 2, cap: 9, mult: 2.0, budget: 5 },     // 2,4,8,9
+            Cfg { initial: 3, cap: 1000, mult: 3.0, budget: 4 },  // 3,6,12
+            Cfg { initial: 5, cap: big, mult: 1.0, budget: 3 },   // 5,5
+            Cfg { initial: 0, cap: 7, mult: 2.0, budget: 4 },     // 0,0,0
+            Cfg { initial: 6, cap: 6, mult: 2.0, budget: 3 },     // 6,6
+            Cfg { initial: 1, cap: big, mult: f64::INFINITY, budget: 6 }, // 1,2,4,8,16
+            Cfg { initial: 20, cap: 0, mult: 2.0, budget: 4 },    // cap zero: 20,0,0
+            Cfg { initial: 4, cap: 5, mult: f64::NAN, budget: 3 }, // 4,4
+            Cfg { initial: 1, cap: 3, mult: 2.0, budget: 12 },    // 1,2,3,3,... (11 waits)
+            Cfg { initial: 1, cap: 1, mult: 0.0, budget: 33 },    // 32 waits of 1 ms
+            Cfg { initial: 24, cap: 24, mult: 2.0, budget: 0 },   // budget 0 = 1: never waits
+            Cfg { initial: 24, cap: 24, mult: 2.0, budget: 1 },
+            Cfg { initial: 24, cap: 1, mult: 1.999_999_999_999_999_8, budget: 2 }, // 24
+        ];
+        let mut k = seed as usize;
+        for (ci, &c) in cfgs.iter().enumerate() {
+            let b = c.budget.max(1) as usize;
+            let tr = |n: usize| -> Vec<i64> { (0..n).map(|i| 1 + ((i + ci) % 4) as i64).collect() };
+            let mut scripts: Vec<Vec<i64>> = Vec::new();
+            // success at attempt a for the interesting a (all of them for small budgets)
+            let succ: Vec<usize> = if b <= 6 { (1..=b).collect() } else { vec![1, 2, 3, b - 1, b] };
+            for a in succ {
+                let mut s = tr(a - 1);
+                s.push(0);
+                scripts.push(s);
+            }
+            scripts.push(tr(b)); // budget exhausted
+            let mut s = tr(1.min(b - 1));
+            s.push(5 + (ci as i64 % 7)); // permanent error
+            scripts.push(s);
+            scripts.push(vec![1, 0, 2, 0, 3, 0]); // per-item batch: every item waits once
+            for s in &scripts {
+                let nontrivial = b >= 2 && (1..=4).contains(&s[0]);
+                let (a, lo) = plan(c, s, &[], true);
+                // (a) no time inside the calls, ample timeout
+                em.case("waits", json!([cj(c), [3_600_000, 3_600_000], s, [], slack]), nontrivial, &["waits", "realtime"]);
+                // (b) the waits alone reach the timeout (clock at least lo, plus a tick)
+                em.case("waits", json!([cj(c), [lo, 0], s, [], slack]), nontrivial,
+                        &["waits", "realtime", "wait-overrun"]);
+                k += 1;
+                match k % 3 {
+                    0 => {
+                        // (c) 2 ms inside every call; the timeout covers the calls but only half the waits
+                        let busy: Vec<u64> = vec![2; a as usize];
+                        let (_, lo2) = plan(c, s, &busy, true);
+                        let t = 2 * a + (lo2 - 2 * a) / 2;
+                        if usable_timeout(t, lo2) {
+                            em.case("waits", json!([cj(c), [t, 2], s, busy, slack]), nontrivial,
+                                    &["waits", "realtime", "busy"]);
+                        }
+                    }
+                    1 => {
+                        // (d) a slow last call, a timeout well above everything
+                        let mut busy: Vec<u64> = vec![0; a as usize];
+                        busy[a as usize - 1] = 6;
+                        let (_, lo2) = plan(c, s, &busy, true);
+                        em.case("waits", json!([cj(c), [lo2 + GREY_MS + 50, busy[0] + GREY_MS], s, busy, slack]), nontrivial,
+                                &["waits", "realtime", "busy"]);
+                    }
+                    _ => {
+                        // (e) a slow first call, the timeout one ms short of the total
+                        let mut busy: Vec<u64> = vec![0; a as usize];
+                        busy[0] = 5;
+                        let (_, lo2) = plan(c, s, &busy, true);
+                        em.case("waits", json!([cj(c), [lo2 - 1, 4], s, busy, slack]), nontrivial,
+                                &["waits", "realtime", "busy"]);
+                    }
+                }
+            }
+        }
+        // RetryConfig::default() and struct update from it (100 ms, 200 ms: two rows only)
+        em.case("waits", json!([[null, null, null, 2], [50, 0], [3, 0], [], slack]), true,
+                &["waits", "realtime", "default-config"]);
+        em.case("waits", json!([[null, null, null, null], [3_600_000, 3_600_000], [4, 1, 0], [], slack]), true,
+                &["waits", "realtime", "default-config"]);
+        em.case("waits", json!([[7, null, null, null], [20, 0], [4, 1, 0], [], slack]), true,
+                &["waits", "realtime", "default-config"]);
+        // seeded random rows
+        let nw = if thorough { 400 } else { 40 };
+        let mut made = 0;
+        while made < nw {
+            let c = Cfg {
+                initial: *rng.pick(&[0u64, 1, 2, 3, 5, 9, 17, 26]),
+                cap: *rng.pick(&[0u64, 1, 2, 4, 7, 12, 40, 1000, big]),
+                mult: *rng.pick(&[2.0, 2.0, 1.5, 3.0, 1.0, f64::INFINITY, f64::NAN, 0.0]),
+                budget: rng.below(8) as u32,
+            };
+            let len = rng.below(8) as usize;
+            let lead = rng.below(len as u64 + 1) as usize;
+            let s: Vec<i64> =
+                (0..len).map(|i| if i < lead { rng.range(1, 4) } else { rng.range(0, 11) }).collect();
+            let busy: Vec<u64> = (0..rng.below(4)).map(|_| *rng.pick(&[0u64, 0, 1, 3, 6])).collect();
+            let (_, lo) = plan(c, &s, &busy, true);
+            let (_, lo1) = plan(c, &s, &busy, false);
+            if lo > 70 {
+                continue;
+            }
+            let t = match rng.below(5) {
+                0 => 3_600_000,
+                1 => lo,
+                2 => lo / 2,
+                3 => lo + GREY_MS + rng.below(100),
+                _ => lo1,
+            };
+            let t1 = match rng.below(3) {
+                0 => 3_600_000,
+                1 => lo1,
+                _ => lo1 + GREY_MS + rng.below(100),
+            };
+            if !(usable_timeout(t, lo) && usable_timeout(t1, lo1)) {
+                continue;
+            }
+            made += 1;
+            let nontrivial = c.budget >= 2 && !s.is_empty() && (1..=4).contains(&s[0]);
+            em.case("waits", json!([cj(c), [t, t1], s, busy, slack]), nontrivial,
+                    &["waits", "realtime", "random"]);
+        }
+
+        // 9b. builder construction sequences in real time: two retry configurations with
+        //     different delays, a 3 ms and a 1 h timeout, every sequence up to length 2 and every
+        //     length-3 sequence that uses both retry configurations; the first call takes 4 ms
+        let r1 = json!([0, 20, 1, fj(2.0), 4]); // 20,1,1
+        let r2 = json!([0, 1, 6, fj(2.0), 4]); // 1,2,4
+        let alpha = [r1.clone(), r2.clone(), json!([1, 3]), json!([1, 3_600_000])];
+        let mut seqs: Vec<Vec<Value>> = vec![vec![]];
+        for x in &alpha {
+            seqs.push(vec![x.clone()]);
+            for y in &alpha {
+                seqs.push(vec![x.clone(), y.clone()]);
+                for z in &alpha {
+                    let q = vec![x.clone(), y.clone(), z.clone()];
+                    if q.contains(&r1) && q.contains(&r2) {
+                        seqs.push(q);
+                    }
+                }
+            }
+        }
+        for q in &seqs {
+            let both = q.iter().any(|x| x[0] == 0) && q.iter().any(|x| x[0] == 1);
+            for sc in [vec![1i64, 4, 2, 0], vec![3, 3, 3, 3, 3]] {
+                em.case("bwaits", json!([q, sc, [4], slack]), both, &["waits", "realtime", "builder-sequence"]);
+            }
+        }
     }
 }
 
